@@ -47,6 +47,7 @@ def run(ck, ctx):
                      "propagated, and the loop runs over the taken batch itself (no filtering/truncating adaptor in between)")
     ck.nd("enumeration of crash points with partial writes (needs the simulated store's semantics at run time)")
     ck.nd("that the saved manifest's contents list exactly the surviving objects (value-level)")
+    ck.rule("R12.8", WRITER_TEXT)
     for cfg in ctx.configs:
         prog = ctx.prog(cfg)
         ck.configs.append(cfg)
@@ -59,6 +60,7 @@ def run(ck, ctx):
         _r125(ck, prog, cfg)
         _r126(ck, prog, fns, cfg)
         _r127(ck, prog, fns, cfg)
+        writer_rule(ck, prog, cfg, "R12.8")
 
 
 def _key_root(fn, operand):
@@ -567,3 +569,37 @@ def _r127(ck, prog, fns, cfg, rid="R12.7", floor=2):
                                                "the write error is not propagated" if not ok_err else "adaptor %s drops elements" % adapt),
                      f.where(t["ln"]), detail="every iteration writes; error propagated; no adaptor")
     ck.floor(rid + _tag(cfg), n, floor)
+
+
+WRITER_TEXT = ("a segment holds every delta handed to its writer: in SegmentWriter::write_delta every path that returns Ok has serialised the "
+               "delta and pushed the record (no write-time suppression of a delta that 'looks like a repeat' - same key and Lamport time, "
+               "different replica id or value is a different update), and SegmentWriter::finish emits every buffered record")
+
+
+def writer_rule(ck, prog, cfg, rid):
+    fs = [f for f in prog.lib_fns() if f.id == "streaming::segment::SegmentWriter::write_delta"]
+    if len(fs) != 1:
+        ck.anchor_lost(rid, "SegmentWriter::write_delta not found")
+        return
+    f = fs[0]
+    pushes = {b for b, t in f.calls() if is_callee(t, r"Vec::<.*>::push$") and _self_field_arg(f, t["args"][0]) == "records"}
+    sers = {b for b, t in f.calls() if is_callee(t, r"bincode::.*serialize", r"serialize_into")}
+    oks = [b for b, i, st in f.stmts() if st["lhs"] == {"l": 0} and st["rv"]["k"] == "agg" and st["rv"].get("n", "").endswith("Result::Ok")]
+    ck.floor(rid + ":write_delta" + _tag(cfg), min(len(pushes), len(oks)), 1)
+    path = lib2.path_avoiding(f, 0, lambda x: x in oks, lambda x: x in pushes, (), from_succ=False)
+    ck.check(path is None and bool(pushes) and bool(sers), rid, "write_delta:ok-implies-stored" + _tag(cfg),
+             "SegmentWriter::write_delta can return Ok without pushing a record: the flush reports the delta as written, the manifest counts "
+             "it, and recovery never sees it", f.where(f.term(path[-1])["ln"] if path else None), detail="records.push on every Ok path")
+    # finish: the loop over self.records writes each record (no adaptor between the field and the loop)
+    fin = [g for g in prog.lib_fns() if g.id == "streaming::segment::SegmentWriter::finish"]
+    if len(fin) == 1:
+        g = fin[0]
+        bad = [callee(t).rsplit("::", 1)[-1] for b, t in g.calls()
+               if is_callee(t, r"Iterator>::(skip|take|step_by|filter|skip_while|take_while|rev)$", r"Vec::<.*>::(truncate|dedup\w*|retain|drain|pop|swap_remove|remove)$")]
+        ck.check(not bad, rid, "finish:emits-every-record" + _tag(cfg),
+                 "SegmentWriter::finish narrows the buffered records before writing them (%s)" % bad, g.where(), detail="no narrowing adaptor")
+
+
+def _self_field_arg(f, operand):
+    s = src_of_operand(f, operand, through_calls=TRANSPARENT + (r"Deref>::deref$", r"DerefMut>::deref_mut$"))
+    return s.fields[0] if s.kind == "path" and s.root == "self" and s.fields else None
